@@ -2,8 +2,8 @@
   C05 — Validation is total and its errors name a defect that is really present.
 
   This file covers IBAN validation without national validation and BIC validation in both modes,
-  for every text.  Totality of national validation (`validate_bban=True`) is proved in
-  `SV.Props.C06` / `SV.Props.C07` (it needs the national algorithms) and collected there.
+  for every text.  Totality of national validation (`validate_bban=True`) needs the national
+  algorithms and the 39 German method theorems; it is in `SV.Props.C05National`.
 -/
 import SV.Proofs.IbanSound
 import SV.Props.C01
